@@ -302,3 +302,39 @@ def rule_R05_3(ctx):
                                                                           'reader' if d in sets['writer'] else 'writer'))
     ctx.covered('R05.3', 'dtypes occurring in the table vs dtypes tested by writer and reader', n, floor=20,
                 samples=['table uses %s' % sorted(used)])
+
+
+# ---------------------------------------------------------------- "tree in use" predicate agreement (C05, C15, C17)
+def rule_tree_predicate(ctx, rule):
+    """Every place that decides whether the particle tree is in use must test the same set of modules:
+    a disjunction that mentions REB_GRAVITY_TREE together with a collision module is such a place."""
+    tus = cfront.load_tus(['input.c', 'particle.c', 'rebound.c', 'tools.c', 'tree.c', 'collision.c', 'boundary.c'])
+    sites = []
+    for cfile, tu in tus.items():
+        for fname, fn in tu.funcs.items():
+            if cfront.basename(fn.get('_locfile') or fn.get('_file')) != cfile:
+                continue
+            for n in walk(cfront.body(fn)):
+                if n.get('kind') != 'IfStmt':
+                    continue
+                cond = n['inner'][0]
+                atoms = set()
+                for x in walk(cond):
+                    if x.get('kind') == 'BinaryOperator' and x.get('opcode') == '==':
+                        a, b = render(x['inner'][0]), render(x['inner'][1])
+                        if b.startswith('REB_GRAVITY_') or b.startswith('REB_COLLISION_'):
+                            atoms.add('%s==%s' % (a, b))
+                if 'r.gravity==REB_GRAVITY_TREE' in atoms and any('COLLISION' in a for a in atoms):
+                    sites.append((cfile, fname, cfront.line_of(n), frozenset(atoms)))
+    anchor(len(sites) >= 4, 'at least four "tree in use" predicates')
+    counts = {}
+    for s in sites:
+        counts[s[3]] = counts.get(s[3], 0) + 1
+    ref = max(counts, key=lambda k: counts[k])
+    for cfile, fname, line, atoms in sites:
+        if atoms != ref:
+            ctx.report(rule, 'tree-in-use:%s' % fname, 'src/%s:%s %s' % (cfile, line, fname),
+                       'this "tree in use" test checks %s while the other %d sites check %s: a module that needs the tree is forgotten here (missing: %s)'
+                       % (sorted(atoms), counts[ref], sorted(ref), sorted(ref - atoms)))
+    ctx.covered(rule, 'sites deciding whether the particle tree is in use test the same set of gravity/collision modules', len(sites), floor=4,
+                samples=['src/%s:%s %s %s' % (c, l, f, sorted(a)) for c, f, l, a in sites[:3]])
